@@ -118,6 +118,12 @@ def decode(x, module=None):
         if "$builder" in x:
             from replay import builders
             return getattr(builders, x["$builder"])(**{k: decode(v, module) for k, v in x.items() if k != "$builder"})
+        if "$enum" in x:
+            ecls = find_class(x["$enum"].split(".")[0], module)
+            for part in x["$enum"].split(".")[1:]:
+                ecls = getattr(ecls, part)
+            members = list(ecls)
+            return ecls[x["name"]] if "name" in x else members[(x["index"] - 1) % len(members)]
         if "$class" in x:
             cls = find_class(x["$class"], module)
             obj = _partial(cls).__new__(_partial(cls))
@@ -129,6 +135,12 @@ def decode(x, module=None):
                     name = f"_{cls.__name__.lstrip('_')}{k}"
                 val = decode(v, module)
                 ftxt = FIELD_TYPES.get(cls.__name__, {}).get(k, "")
+                if isinstance(val, int) and not isinstance(val, bool) and "." in ftxt and "[" not in ftxt:
+                    # a solver model gives an enumeration member by its position (1-based, definition order)
+                    try:
+                        val = decode({"$enum": ftxt, "index": val}, module)
+                    except Exception:
+                        pass
                 if ftxt.startswith("deque[") and isinstance(val, list):
                     import collections
                     val = collections.deque(val)
@@ -190,6 +202,10 @@ def prepare(spec: dict):
         c = reg.contracts[base]
         mod, owner, fn = runtime.resolve(base)
         unit = base
+        # classes of the unit's module are visible by name (RTCSctpTransport.State.ESTABLISHED), as they are to the prover
+        for k_, v_ in vars(mod).items():
+            if isinstance(v_, type) and k_ not in ctx.env:
+                ctx.env[k_] = v_
     return reg, ctx, unit, c, mod, owner, fn
 
 
@@ -388,6 +404,36 @@ def judge(prep, inputs_json: dict, timeout: float, excl=()) -> dict:
     old_local = ctx.snapshot_all(local)
     emit_st["old"] = old_local
     emit_st["local"] = local
+    # Methods of the same object whose contract is *assumed* (trusted=True, raises nothing): the real body runs, but on a
+    # partially rebuilt object it may fail on state the contracts do not describe; such a failure is swallowed, which is
+    # the behaviour the assumed contract promises (the caller's proof never looked inside).
+    if owner is not None and "self" in inputs:
+        import inspect as _insp
+        for q_, tc_ in reg.contracts.items():
+            pref_ = f"{owner.__module__}:{owner.__name__}."
+            if not (tc_.trusted and q_.startswith(pref_) and not tc_.raises):
+                continue
+            mn_ = q_[len(pref_):]
+            an_ = mn_ if (not mn_.startswith("__") or mn_.endswith("__")) else f"_{owner.__name__.lstrip('_')}{mn_}"
+            real_ = getattr(owner, an_, None)
+            if real_ is None or not callable(real_):
+                continue
+            if _insp.iscoroutinefunction(real_):
+                async def _shield(*a, _r=real_, _o=inputs["self"], **kw):
+                    try:
+                        return await _r(_o, *a, **kw)
+                    except Exception:
+                        return None
+            else:
+                def _shield(*a, _r=real_, _o=inputs["self"], **kw):
+                    try:
+                        return _r(_o, *a, **kw)
+                    except Exception:
+                        return None
+            try:
+                object.__setattr__(inputs["self"], an_, _shield)
+            except Exception:
+                pass
     # 2. call with watchdog
     args = dict(inputs)
     call = fn
